@@ -3,8 +3,16 @@ module vharness
 go 1.19
 
 require (
+	github.com/kjk/lzma v0.0.0-20161016003348-3fd93898850d
+	github.com/klauspost/compress v1.16.5
+	golang.org/x/crypto v0.9.0
 	pault.ag/go/debian v0.0.0
 	verifsim v0.0.0
+)
+
+require (
+	github.com/xi2/xz v0.0.0-20171230120015-48954b6210f8 // indirect
+	pault.ag/go/topsort v0.1.1 // indirect
 )
 
 replace pault.ag/go/debian => /repo
